@@ -522,11 +522,9 @@ impl<'m> MCTPSMBusContext<'m> {
                                         response_buf,
                                     )
                                     .unwrap();
-                            } else if payload[0] == MCTPSetEndpointIDOperations::ResetEID as u8 {
-                                unimplemented!()
-                            } else if payload[0]
-                                == MCTPSetEndpointIDOperations::SetDiscoveredFlag as u8
-                            {
+                            } else {
+                                // ResetEID (static EIDs aren't supported),
+                                // SetDiscoveredFlag or a reserved operation
                                 len = self
                                     .get_response()
                                     .set_endpoint_id(
@@ -537,8 +535,6 @@ impl<'m> MCTPSMBusContext<'m> {
                                         response_buf,
                                     )
                                     .unwrap();
-                            } else {
-                                unreachable!()
                             }
                         }
                         CommandCode::GetEndpointID => {
